@@ -10,3 +10,17 @@ Definition chk_damp (kl V l : float) (fwd bwd e : list float) : bool :=
 Definition chk_ac (FM0 FM1 FM2 : list float) (delta ex ez ecm : float) : bool :=
   (* x and z are recovered by the harness from the dimensional point the API returns: compared to 1e-10 *)
   let '(x, z, cm) := ac_point FM0 FM1 FM2 delta in fclose 1e-10 1e-12 x ex && fclose 1e-10 1e-12 z ez && fclose 1e-10 1e-12 cm ecm.
+
+(* the states state_derivatives hands to set_state (position, body-fixed velocity, attitude, rates), forward and backward, bit for bit *)
+Definition v3_bits (a b : v3 float) : bool := fbits_eq (vx a) (vx b) && fbits_eq (vy a) (vy b) && fbits_eq (vz a) (vz b).
+Definition q4_bits (a b : quat float) : bool :=
+  let '(Q4 a0 a1 a2 a3) := a in let '(Q4 b0 b1 b2 b3) := b in fbits_eq a0 b0 && fbits_eq a1 b1 && fbits_eq a2 b2 && fbits_eq a3 b3.
+Definition args_bits (a e : sargs (T:=float)) : bool :=
+  let '(p, vb, q, w) := a in let '(ep, evb, eq, ew) := e in v3_bits p ep && v3_bits vb evb && q4_bits q eq && v3_bits w ew.
+Definition chk_sd_args (v w p : v3 float) (q : quat float) (var : nat) (i : nat) (d : float) (ef eb : sargs (T:=float)) : bool :=
+  let s := mk_ast v w p q [] in
+  let vr := match var with 0%nat => SVel | 1%nat => SPos | _ => SRate end in
+  args_bits (sd_args s vr i d) ef && args_bits (sd_args_b s vr i d) eb.
+Definition chk_sd_args_q (v w p : v3 float) (q : quat float) (i : nat) (e : float) (ef eb : sargs (T:=float)) : bool :=
+  let s := mk_ast v w p q [] in
+  args_bits (sd_args_q s i e true) ef && args_bits (sd_args_q s i e false) eb.
